@@ -115,6 +115,8 @@ fn api_checks(ctx: &mut Ctx, t: &SItem, u: &SItem, w: &SItem) {
                 let sc = SItem::of(&c);
                 if !parents.iter().any(|p| **p == sc) {
                     errs.push(("Item::container".into(), format!("container {} is not the parent list of an occurrence", sc)));
+                } else if t != u && crate::refm::first_container(t, u).as_ref() != Some(&sc) {
+                    errs.push(("Item::container".into(), format!("container {} is not the list holding the FIRST occurrence (depth-first) of {} in {}", sc, u, t)));
                 }
             }
             Err(_) => {
@@ -197,6 +199,24 @@ pub fn run(ctx: &mut Ctx) {
                 c
             }
         };
+        // one case in three: the searched item occurs SEVERAL times, at different depths and in
+        // both orders (nested first / direct first): "first occurrence in depth-first order" and
+        // "every occurrence" only differ from cheaper strategies on such trees
+        if case % 3 == 1 {
+            if let SItem::List(v) = &mut t {
+                let nested_first = r.bool();
+                let copy = u.clone();
+                if let Some(SItem::List(inner)) = v.iter_mut().find(|x| matches!(x, SItem::List(_))) {
+                    let p = r.below(inner.len() + 1);
+                    inner.insert(p, copy.clone());
+                } else {
+                    v.insert(0, SItem::List(vec![copy.clone()]));
+                }
+                let first_list = v.iter().position(|x| matches!(x, SItem::List(_))).unwrap_or(0);
+                let pos = if nested_first { first_list + 1 + r.below(v.len() - first_list) } else { r.below(first_list + 1) };
+                v.insert(pos.min(v.len()), copy);
+            }
+        }
         let w = tree(&mut r, 3, &names);
         ctx.rec.case_marker(case, "api");
         api_checks(ctx, &t, &u, &w);
